@@ -8,7 +8,7 @@ META = {
     "text": "Lean theorems, any number of threads: the suspend count (6-bit inline field + side counter with both slow-path transfers and their retry exits) equals suspends minus "
             "resumes at any nesting depth, and the bits the drainer tests are set iff suspends outnumber resumes (N suspends need exactly N resumes); for a queue created inactive the "
             "drainer's test is true exactly until the activation protocol has completed and then exactly while client suspends outnumber client resumes. Tie: every suspend / resume / "
-            "activate transition of dq_state performed by the real library (nests of depth 1..200 from outside, from an item, from a barrier item, on inactive queues; concurrent "
+            "activate transition of dq_state performed by the real library, including the give-back of a property setter's temporary suspension (nests of depth 1..200 from outside, from an item, from a barrier item, on inactive queues; concurrent "
             "suspend/resume storms) is replayed through SuspendP.step / ActP.step with the side count tracked across the slow paths; the statement (nothing starts before the last "
             "resume / activate, everything pending and every blocked sync caller runs afterwards, at most one committed item after an external suspend) is evaluated on the same runs.",
     "note": "The link 'drainer runs nothing while the bits are set' is the lane model's guard (C01/C02 models treat a suspended lane as not runnable) and is observed by the oracle; "
@@ -16,7 +16,7 @@ META = {
     "technique": "Lean 4 proof (inductive invariant with a ghost transfer flag; omega) + replay of real atomic traces with side-count tracking + nesting-depth oracle",
 }
 
-THEOREMS = ["C06.suspend_count_exact", "C06.suspended_iff", "C06.inactive_blocked_iff", "C06.activation_count_exact", "C06.drainer_leaves_runnable_queue_enqueued", "C06.drainer_leaves_dirty", "C06.consts"]
+THEOREMS = ["C06.suspend_count_exact", "C06.suspended_iff", "C06.inactive_blocked_iff", "C06.activation_count_exact", "C06.drainer_leaves_runnable_queue_enqueued", "C06.drainer_leaves_dirty", "C06.F23_as_found", "C06.F23_fixed", "C06.consts"]
 
 
 def run(ctx):
@@ -56,5 +56,6 @@ def run(ctx):
     # regression for F14 (repaired): a queue suspended while its drainer holds a pending-barrier reservation must run again after the resume
     forced(ctx, "f14_pending_barrier", "F14", "lane:stranded:pending-barrier-reserved-twice", "F14")
     ctx.cov["rule"] = ("c06_suspend: depths {1,2,31..33,63..65,95..97,127..129,200} x {external, from own item, from barrier item, inactive+activate}, plus the one-committed-item "
-                       "scenario; tr_lane: suspend/resume pairs and 70/130-deep nests from client threads concurrent with async/sync traffic. distinct_nontrivial = suspend/resume/activate "
+                       "scenario; property setters (set_target_queue / set_width on active queues) held before they give their temporary suspension back while another thread nests "
+                       "{1,31,32,62,63,64,95,96,127,130} suspensions and resumes down to inline count 0 or a random number; tr_lane: suspend/resume pairs and 70/130-deep nests from client threads concurrent with async/sync traffic. distinct_nontrivial = suspend/resume/activate "
                        "transitions explained by the models")
